@@ -8,6 +8,7 @@
 #                      input when the correspondence or a proof breaks
 import itertools
 import json
+import re
 
 from lib import vlib
 
@@ -376,6 +377,174 @@ def lua_stage(ck, gvh, n):
     return nviol
 
 
+# ---------------------------------------------------------------------------------------------------------------
+# coroutines x contexts (Ctx/CoroModel.v): programs with a main thread and 2-3 coroutines, each a tree of
+# runtime.callcontext{flags} / pcall frames, resumes, yields and looks at runtime.context().flags.  The program
+# logs the events in the order they happen; that history is replayed on the model INSIDE Coq (vm_compute on
+# CoroModel.verdict), which says (1) whether the model reproduces what the implementation reported (flags in force at
+# every look, flags of every returned context object), (2) whether those observations satisfy the property (every
+# frame ends its own context; required flags in force), (3) whether the history is disciplined (no yield inside an
+# open frame: the hypothesis of C07_coroutines_disciplined_contexts_sound).
+FLAGBITS = {"memsafe": 1, "cpusafe": 2, "iosafe": 4, "timesafe": 8}
+CORO_PRELUDE = (
+    "local FB={memsafe=1,cpusafe=2,iosafe=4,timesafe=8} "
+    "local function fnum(s) local n=0 for w in tostring(s):gmatch('%a+') do n=n+(FB[w] or 0) end return n end "
+    "local NF=0 local CO={} "
+    "local function cur() return fnum(runtime.context().flags) end "
+)
+
+
+def coro_items(rng, tid, nthreads, depth, budget):
+    """-> (lua source, has_yield_inside_frame) for a sequence of items of thread tid at frame depth `depth`."""
+    out = []
+    n = 1 + rng.below(4)
+    for _ in range(n):
+        if budget[0] <= 0:
+            break
+        budget[0] -= 1
+        k = rng.below(10)
+        if k < 3 and depth < 3:
+            body = coro_items(rng, tid, nthreads, depth + 1, budget)
+            if rng.below(3) == 0:
+                out.append("do local id=NF NF=NF+1 emit('push',%d,id,0) pcall(function() %s end) emit('xany',%d,id) end" % (tid, body, tid))
+            else:
+                fl = rng.choice(["", "iosafe", "cpusafe", "memsafe", "timesafe", "iosafe cpusafe", "memsafe timesafe"])
+                req = sum(FLAGBITS[w] for w in fl.split())
+                out.append("do local id=NF NF=NF+1 emit('push',%d,id,%d) local c=runtime.callcontext({flags='%s'},function() %s end) "
+                           "emit('exit',%d,id,c and fnum(c.flags) or -1) end" % (tid, req, fl, body, tid))
+        elif k < 6:
+            u = 1 + rng.below(nthreads - 1)
+            if u != tid:
+                out.append("if coroutine.status(CO[%d])=='suspended' then emit('resume',%d,%d) local ok,e=coroutine.resume(CO[%d]) "
+                           "if not ok then emit('resume-error',tostring(e)) end end" % (u, tid, u, u))
+        elif k < 8 and tid != 0:
+            out.append("emit('yield',%d) coroutine.yield()" % tid)
+        else:
+            out.append("emit('obs',%d,cur())" % tid)
+    return " ".join(out)
+
+
+def coro_case(rng):
+    nthreads = 3 + rng.below(2)
+    budget = [14 + rng.below(12)]
+    parts = [CORO_PRELUDE]
+    for t in range(1, nthreads):
+        parts.append("CO[%d]=coroutine.create(function() %s emit('end',%d) end)" % (t, coro_items(rng, t, nthreads, 0, budget), t))
+    parts.append(coro_items(rng, 0, nthreads, 0, budget))
+    parts.append("emit('obs',0,cur())")
+    return "\n".join(parts)
+
+
+CORO_CORPUS = [
+    # the witnesses of C07_coroutine_exit_pops_own_refuted / C07_coroutine_flags_in_force_refuted
+    CORO_PRELUDE + "CO[1]=coroutine.create(function() do local id=NF NF=NF+1 emit('push',1,id,4) local c=runtime.callcontext({flags='iosafe'},function() "
+    "emit('yield',1) coroutine.yield() emit('obs',1,cur()) end) emit('exit',1,id,c and fnum(c.flags) or -1) end emit('end',1) end)\n"
+    "do local id=NF NF=NF+1 emit('push',0,id,0) local c=runtime.callcontext({flags=''},function() emit('resume',0,1) coroutine.resume(CO[1]) end) "
+    "emit('exit',0,id,c and fnum(c.flags) or -1) end emit('resume',0,1) coroutine.resume(CO[1]) emit('obs',0,cur())",
+    # a coroutine suspended inside pcall and abandoned: the enclosing context's exit pops the pcall context
+    CORO_PRELUDE + "CO[1]=coroutine.create(function() do local id=NF NF=NF+1 emit('push',1,id,0) pcall(function() emit('yield',1) coroutine.yield() end) "
+    "emit('xany',1,id) end emit('end',1) end)\n"
+    "do local id=NF NF=NF+1 emit('push',0,id,2) local c=runtime.callcontext({flags='cpusafe'},function() emit('resume',0,1) coroutine.resume(CO[1]) "
+    "emit('obs',0,cur()) end) emit('exit',0,id,c and fnum(c.flags) or -1) end emit('obs',0,cur())",
+]
+
+
+def coro_history(line):
+    """protocol line -> (events as Coq terms, observations as Coq terms, error string or None)"""
+    f = line.split(" ")
+    if len(f) < 3 or f[1] != "ok":
+        return None, None, "program ended with status %s" % (f[1] if len(f) > 1 else "?")
+    evs = [[dec_val(v) for v in e.split(",")] for e in f[2][2:].split(";")] if f[2] != "T:-" else []
+    h, o = [], []
+    for e in evs:
+        k = e[0]
+        if k == "push":
+            h.append("EPush %d" % e[3])
+        elif k == "exit":
+            h.append("EExit")
+            o.append("PExit %d %s" % (e[2], "None" if e[3] < 0 else "(Some %d%%N)" % e[3]))
+        elif k == "xany":
+            h.append("EExit")
+            o.append("PExitAny %d" % e[2])
+        elif k == "resume":
+            h.append("EResume %d" % e[2])
+        elif k == "yield":
+            h.append("EYield")
+        elif k == "end":
+            h.append("EEnd")
+        elif k == "obs":
+            h.append("EObs")
+            o.append("PCur %d" % e[2])
+        elif k == "resume-error":
+            return None, None, "coroutine.resume failed: %s" % e[1]
+    return h, o, None
+
+
+def coro_stage(ck, gvh, n):
+    import os
+    srcs = list(CORO_CORPUS) + [coro_case(ck.rng) for _ in range(n)]
+    lines = ["K%d %s" % (i, src.encode().hex()) for i, src in enumerate(srcs)]
+    outs = vlib.run_lines_resilient(gvh, ["lua"], lines, per_case_timeout=30)
+    rows, idx = [], []
+    kf = ck.known_match(lambda k: k.get("match", {}).get("class") == "context-stack-shared-by-coroutines")
+    nviol = 0
+    for i, (src, o) in enumerate(zip(srcs, outs)):
+        ck.case("coro:" + src, True)
+        h, ob, err = coro_history(o)
+        if err:
+            nviol += 1
+            if nviol <= 3:
+                ck.violation("coroutine x context program: " + err, {"kind": "Go!=S", "engine": "lua", "program": src, "output": o[:1500]})
+            continue
+        rows.append("([%s], [%s])" % ("; ".join(h), "; ".join(ob)))
+        idx.append(i)
+    coq = ("From Coq Require Import NArith List.\nFrom GV Require Import Ctx.CoroModel.\nImport ListNotations.\n"
+           "Definition cases : list (list ev * list pobs) := [\n" + ";\n".join(rows) + "].\n"
+           "Definition V := Eval vm_compute in map (fun c => verdict (fst c) (snd c)) cases.\nPrint V.\n")
+    d = os.path.join(vlib.WORK, "C07")
+    os.makedirs(d, exist_ok=True)
+    fn = os.path.join(d, "coro_cases.v")
+    open(fn, "w").write(coq)
+    rc, so, se = vlib.sh(["coqc", "-R", os.path.join(vlib.COQ, "theories"), "GV", fn], cwd=d, timeout=900)
+    m = re.search(r"V\s*=\s*\[(.*?)\]", so, re.S)
+    verdicts = [int(x) for x in re.findall(r"(\d+)%?N?", m.group(1))] if m else []
+    if rc != 0 or len(verdicts) != len(rows):
+        ck.violation("coroutine x context histories could not be evaluated in Coq", {"kind": "oracle", "coqc_rc": rc, "out": (so + se)[-1500:]}, no_input=True)
+        return nviol
+    stats = {"histories": len(rows), "disciplined": 0, "undisciplined": 0, "model_predicts_failure": 0}
+    for i, v in zip(idx, verdicts):
+        src, o = srcs[i], outs[i]
+        agrees, ok, disc = bool(v & 1), bool(v & 2), bool(v & 4)
+        stats["disciplined" if disc else "undisciplined"] += 1
+        ck.count("coro:" + ("disciplined" if disc else "undisciplined"))
+        rep = {"kind": "Go!=S", "engine": "lua", "program": src, "output": o[:1500], "history": rows[idx.index(i)][:1500],
+               "model_agrees": agrees, "observations_ok": ok, "history_disciplined": disc}
+        if v & 8:
+            nviol += 1
+            ck.violation("coroutine x context program produced a history the model cannot follow", rep)
+        elif not agrees:
+            nviol += 1
+            if nviol <= 3:
+                rep["kind"] = "Go!=IM"
+                ck.violation("coroutines x contexts: the implementation reports other context flags than the model of its shared context stack "
+                             "(Ctx/CoroModel.v) predicts for the same history", rep)
+        elif not ok:
+            stats["model_predicts_failure"] += 1
+            if disc:
+                nviol += 1
+                ck.violation("coroutines x contexts: a frame ended another context / required flags not in force in a DISCIPLINED history "
+                             "(contradicts C07_coroutines_disciplined_contexts_sound: model and code differ)", rep)
+            elif kf:
+                ck.known_finding(kf)
+            else:
+                nviol += 1
+                if nviol <= 3:
+                    ck.violation("coroutines x contexts: a coroutine suspended inside an open CallContext frame makes a frame end another "
+                                 "thread's context / lets the body of a flagged context run without its flags", rep)
+    ck.cov["coroutine_context_stage"] = stats
+    return nviol
+
+
 def coq_crosscheck(ck, cases, model_lines, k=150):
     """Extraction cross-check: re-evaluate k histories INSIDE Coq (vm_compute on Ctx/Model.v) and compare the final
     manager state with what the extracted OCaml oracle printed.  Bounds the trust in extraction + driver glue."""
@@ -518,6 +687,7 @@ def run(tier, seed):
     if rc2 == 0 and len(model) == len(lines):
         coq_crosscheck(ck, cases, model, k=(40 if tier == "quick" else 600))
     lua_fail = lua_stage(ck, ck.build_gvh()[0], 400 if tier == "quick" else 6000)
+    lua_fail += coro_stage(ck, ck.build_gvh()[0], 300 if tier == "quick" else 5000)
     ck.cov["lua_level_failures"] = lua_fail
     pred_fail += lua_fail
     if ndiff and not pred_fail:
